@@ -33,6 +33,8 @@ package address
 //@   ensures result1 == recv.lruhas[asstring(key)] && (result1 ==> result0 == recv.lruval[asstring(key)])
 //@ trusted func (*github.com/hashicorp/golang-lru.Cache).Add
 //@   frame recv.lruhas, recv.lruval
+//@   ensures recv.lruhas[asstring(key)] && recv.lruval[asstring(key)] == value
+//@   ensures forall k Bytes :: k != asstring(key) && recv.lruhas[k] ==> old(recv.lruhas[k]) && recv.lruval[k] == old(recv.lruval[k])
 
 //@ func isEnable [C19]
 //@   frame nothing
